@@ -158,6 +158,8 @@ func init() {
 			guard(r, "OWN", func() { ruleOWN(w, r, ownOpts{coder: true}) })
 			guard(r, "COPYLEN", func() { ruleCOPYLEN(w, r) })
 			guard(r, "ROWCOVER", func() { ruleROWCOVER(w, r) })
+			guard(r, "ELIM", func() { ruleELIM(w, r) })
+			guard(r, "SOLVE", func() { ruleSOLVE(w, r) })
 			guard(r, "FILTER", func() { ruleFILTER(w, r) })
 			guard(r, "PAIR", func() { rulePAIRERRTYPE(w, r) })
 			guard(r, "ERRFLOW", func() { ruleERRFLOW(w, r, errflowScope{fnNames: coderChain, tag: " on the coder chain"}, 4) })
@@ -173,6 +175,7 @@ func init() {
 			guard(r, "CONST", func() { ruleCONST(w, r, constOpts{field: true}) })
 			guard(r, "TABLEFILL", func() { ruleTABLEFILL(w, r, 1, "expTable", "logTable") })
 			guard(r, "INTONLY", func() { ruleINTONLY(w, r) })
+			guard(r, "ZEROEXP", func() { ruleZEROEXP(w, r) })
 			guard(r, "RANGE", func() {
 				ruleRANGE(w, r, []string{"gf2p16", "gf2"}, 10, func(fn *ssa.Function) bool {
 					return fn.Signature.Recv() != nil && namedTypeName(fn.Signature.Recv().Type()) != "gf2p16.Matrix"
@@ -225,6 +228,8 @@ func init() {
 			guard(r, "OWN", func() { ruleOWN(w, r, ownOpts{matrix: true}) })
 			guard(r, "COPYLEN", func() { ruleCOPYLEN(w, r) })
 			guard(r, "ERRFLOW", func() { ruleERRFLOW(w, r, errflowScope{fnNames: matrixChain, tag: " on the matrix chain"}, 3) })
+			guard(r, "ELIM", func() { ruleELIM(w, r) })
+			guard(r, "ROWCOVER", func() { ruleROWCOVER(w, r) })
 			if w.GOARCH == "amd64" {
 				// row scaling and scaled row addition run through the bulk kernels
 				guard(r, "ASM", func() { pres := ruleASM(w, r); ruleKGUARD(w, r, pres) })
